@@ -123,8 +123,9 @@ class Lab:
                     return []
                 if q.endswith(":scan_file"):
                     if self.deep:
-                        m = Sym("measurement", unit_name="f", value=40, start=Sym("loc", line=1, column=1), end=Sym("loc", line=41, column=1))
-                        return [m]
+                        m1 = Sym("measurement", unit_name="f", value=40, start=Sym("loc", line=1, column=1), end=Sym("loc", line=41, column=1))
+                        m2 = Sym("measurement", unit_name="g", value=7, start=Sym("loc", line=50, column=1), end=Sym("loc", line=57, column=1))
+                        return [m1, m2]
                     return []
                 if (q.endswith("CheckResult.report") or q.endswith("CheckResult.add")) and not self.deep:
                     return None
@@ -157,8 +158,10 @@ class Lab:
 
     def run(self, q: str, args: list, kwargs=None):
         it = MiniInterp(self.prj, self.hook, max_steps=400000, max_depth=60)
+        self.interp = it
+        self.result = None
         try:
-            it.call(self.prj.func(q), args, kwargs or {})
+            self.result = it.call(self.prj.func(q), args, kwargs or {})
         except PyRaise as e:
             if e.name not in ("Exit",):
                 raise
@@ -254,3 +257,38 @@ def totality_scenarios(prj: Project):
         except PyRaise as e:
             out.append((desc, e.name, e.node, lab))
     return out
+
+
+def scanned_entries(prj: Project):
+    """scan_path on the virtual tree with the measuring stub returning two functions (40 and 7 lines) per file:
+    -> list of (key, path attribute, language, loc, [values], checksum) of the entries of the returned codebase"""
+    lab = Lab(prj, ROOT, deep=True)
+    lab.run("codelimit.common.Scanner:scan_path", [PathV(ROOT)])
+    cb = lab.result
+    if not isinstance(cb, Sym) or not isinstance(cb.fields.get("files"), dict):
+        raise Unknown("scan_path does not return a codebase with a files dictionary")
+    out = []
+    for key, e in cb.fields["files"].items():
+        m = e.cls.find_method("measurements") if e.cls is not None else None
+        ms = lab.interp.call(prj.func(m.qual), [], {}, self_obj=e) if m is not None else e.fields.get("_measurements")
+        ck = e.cls.find_method("checksum") if e.cls is not None else None
+        cs = lab.interp.call(prj.func(ck.qual), [], {}, self_obj=e) if ck is not None else None
+        out.append((key, e.fields.get("path"), e.fields.get("language"), e.fields.get("loc"), [x.fields.get("value") for x in ms], cs))
+    return out
+
+
+def checksum_eval(prj: Project):
+    """calculate_checksum on a virtual file of 70000 bytes, then again after its bytes changed beyond the first 64 KiB
+    -> (digest1, md5(content1), digest2, md5(content2))"""
+    import hashlib
+    fi = prj.func("codelimit.common.utils:calculate_checksum")
+    vfs = VFS({"/r": ([], ["big.py"])}, "/r")
+    c1 = (b"0123456789abcdef" * 4400)[:70000]
+    c2 = c1[:69000] + b"X" * 1000
+    fs = fs_hook(vfs)
+    it = MiniInterp(prj, lambda it_, kind, f, args, kwargs, node, cur: fs(it_, kind, f, args, kwargs, node, cur), max_steps=200000)
+    vfs.bytes["/r/big.py"] = c1
+    d1 = it.call(fi, ["/r/big.py"], {})
+    vfs.bytes["/r/big.py"] = c2
+    d2 = it.call(fi, ["/r/big.py"], {})
+    return d1, hashlib.md5(c1).hexdigest(), d2, hashlib.md5(c2).hexdigest()
